@@ -67,6 +67,10 @@ def generate(rng, tier):
     out += _gen_failed_exit_then_rerun(rng, 40 * n)
     out += _gen_caught_failed_extend(rng, 40 * n)
     out += _gen_valued_returns(rng, 60 * n)
+    for p in sc.gen_enter_effects(rng, 40 * n):      # extend()/remove() from a doer's enter context (oracle only)
+        p["broad"] = True
+        p["limit"] = None if not any(d["kind"] == "nest" and sc.eff_always(d) for d in p["defs"].values()) else p["limit"]
+        out.append(p)
     return out
 
 
@@ -257,6 +261,14 @@ def _oracle_broad(case, obs):
             return f"doer {i} finished by itself returning {r} but its done is True"
         if r == "true" and dones.get(i) is not True:
             return f"doer {i} finished by itself returning True but its done is {dones.get(i)}"
+    # a run that completed (done = True, nothing raised) was run by every doer still listed at its end
+    if obs["raised"] == "none" and dones.get(0) is True and not case.get("again") and not case.get("fresh"):
+        entered = {i for k, i, _ in tr if k == "Enter"}
+        for sid, lst, _ in obs["scheds"]:
+            if sid == 0 or sid in entered:
+                miss = [x for x in lst if x not in entered]
+                if miss:
+                    return f"the run returned done = True but the listed doers {miss} of scheduler {sid} were never entered"
     for sid, lst, _ in obs["scheds"]:
         if dones.get(sid) is True and sid not in always:
             cut = [x for x in lst if ending.get(x) in ("Cease", "Abort", "open")]
